@@ -41,7 +41,8 @@ var queryClasses = []string{
 
 // classes that can only be executed under the hang probe (they would block a normal batch forever
 // if the application has no bound for them)
-var hangProbeClasses = []string{"query-trace-js-loop-at-construction", "query-traceblock-js-loop-at-construction"}
+var hangProbeClasses = []string{"query-trace-js-loop-at-construction", "query-traceblock-js-loop-at-construction",
+	"query-ethcall-unbounded-gas-loop", "query-estimategas-unbounded-gas-loop"}
 
 var grpcRoutes = []string{
 	"/ethermint.evm.v1.Query/Account", "/ethermint.evm.v1.Query/CosmosAccount", "/ethermint.evm.v1.Query/ValidatorAccount", "/ethermint.evm.v1.Query/Balance",
@@ -123,10 +124,13 @@ func (g *gen) query(class string) *hquery {
 		q.Path = route()
 		gas := vh.Pick(r, []string{"0xffffffffffffffff", "0x7fffffffffffffff", "0x8000000000000000", "0x5208", "0x0", "0x1", "0x10000000000000000"})
 		target := to
+		caps := []uint64{0, 20999, 21000, 5_000_000, 25_000_000}
 		if r.Bool() {
 			target = h.looper.Hex() // burns whatever it gets: the gas cap is the only bound
+			// a zero cap means "no cap" (2^64-1 gas): that request is offered by the hang probe only
+			caps = []uint64{20999, 21000, 5_000_000, 25_000_000}
 		}
-		q.Data = ethCallReq(fmt.Sprintf(`{"from":"%s","to":"%s","gas":"%s","data":"0x%x"}`, from, target, gas, r.Bytes(4)), vh.Pick(r, []uint64{0, 20999, 21000, 5_000_000, 25_000_000}))
+		q.Data = ethCallReq(fmt.Sprintf(`{"from":"%s","to":"%s","gas":"%s","data":"0x%x"}`, from, target, gas, r.Bytes(4)), vh.Pick(r, caps))
 	case "query-ethcall-negative-looking-hex":
 		q.Path = route()
 		v := vh.Pick(r, []string{"-0x1", "0x-1", "0x" + strings.Repeat("f", 64), "0x8" + strings.Repeat("0", 63), "-1", "0x00", "0X1", "1e18"})
@@ -157,7 +161,11 @@ func (g *gen) query(class string) *hquery {
 			fmt.Sprintf(`{"from":"%s","data":"0x60ef60005360016000f3"}`, from),
 			fmt.Sprintf(`{"from":"%s","to":"%s","gas":"0x5207"}`, from, to),
 		})
-		q.Data = ethCallReq(args, vh.Pick(r, []uint64{0, 20999, 21000, 21001, 1_000_000, 25_000_000, math.MaxUint64}))
+		caps := []uint64{0, 20999, 21000, 21001, 1_000_000, 25_000_000, math.MaxUint64}
+		if strings.Contains(args, strings.ToLower(h.looper.Hex()[2:])) || strings.Contains(args, h.looper.Hex()) {
+			caps = []uint64{20999, 21000, 21001, 1_000_000, 25_000_000} // unbounded caps on a looping callee: hang probe only
+		}
+		q.Data = ethCallReq(args, vh.Pick(r, caps))
 	case "query-trace-unknown-tracer":
 		q.Path = "/ethermint.evm.v1.Query/TraceTx"
 		msg, _ := g.traceMsg()
@@ -186,8 +194,9 @@ func (g *gen) query(class string) *hquery {
 			`{step: function() { while (true) {} }, fault: function() {}, result: function() { return 1 }}`,
 			`{step: function() {}, fault: function() {}, result: function() { for (;;) {} }}`,
 			`{enter: function() { while (1) {} }, exit: function() {}, step: function() {}, fault: function() {}, result: function() { while (1) {} }}`,
-			`{setup: function() { while (true) {} }, step: function() {}, fault: function() {}, result: function() { return 2 }}`,
 		})
+		// (setup() runs while the tracer object is constructed, before the deadline is armed: that variant
+		// belongs to the hang probe, class query-trace-js-loop-at-construction)
 		q.Data = mustProto(g.traceReq(msg, nil, &evmtypes.TraceConfig{Tracer: js, Timeout: vh.Pick(r, []string{"30ms", "1ms", "80ms"})}))
 	case "query-trace-timeout-values":
 		q.Path = "/ethermint.evm.v1.Query/TraceTx"
@@ -233,9 +242,15 @@ func (g *gen) query(class string) *hquery {
 			if r.Bool() {
 				q.Data = mustProto(g.traceReq(bad, nil, nil))
 			} else {
+				if bad == nil { // a nil element of a repeated field has no wire encoding
+					bad = &evmtypes.MsgEthereumTx{}
+				}
 				q.Data = mustProto(g.traceReq(good, []*evmtypes.MsgEthereumTx{bad}, nil))
 			}
 		} else {
+			if bad == nil {
+				bad = &evmtypes.MsgEthereumTx{}
+			}
 			q.Data = mustProto(&evmtypes.QueryTraceBlockRequest{Txs: []*evmtypes.MsgEthereumTx{good, bad, good}, BlockNumber: h.c.Height, BlockTime: h.c.Time})
 		}
 	case "query-trace-config-garbage":
@@ -284,13 +299,24 @@ func (g *gen) query(class string) *hquery {
 		q.Path = "/ethermint.evm.v1.Query/TraceTx"
 		msg, _ := g.traceMsg()
 		q.Height = 0
-		q.Data = mustProto(g.traceReq(msg, nil, &evmtypes.TraceConfig{Tracer: `{step: function() {}, fault: function() {}, result: (function() { while (true) {} })()}`, Timeout: "100ms"}))
+		js := vh.Pick(r, []string{
+			`{step: function() {}, fault: function() {}, result: (function() { while (true) {} })()}`,
+			`{setup: function() { while (true) {} }, step: function() {}, fault: function() {}, result: function() { return 2 }}`,
+		})
+		q.Data = mustProto(g.traceReq(msg, nil, &evmtypes.TraceConfig{Tracer: js, Timeout: "100ms"}))
 	case "query-traceblock-js-loop-at-construction":
 		q.Path = "/ethermint.evm.v1.Query/TraceBlock"
 		msg, _ := g.traceMsg()
 		q.Height = 0
 		q.Data = mustProto(&evmtypes.QueryTraceBlockRequest{Txs: []*evmtypes.MsgEthereumTx{msg}, BlockNumber: h.c.Height, BlockTime: h.c.Time,
 			TraceConfig: &evmtypes.TraceConfig{Tracer: `{step: function() {}, fault: function() {}, result: (function() { for (;;) {} })()}`, Timeout: "100ms"}})
+	case "query-ethcall-unbounded-gas-loop":
+		// GasCap 0 = no cap; the callee is an infinite loop: nothing bounds the execution but 2^64-1 gas
+		q.Path = "/ethermint.evm.v1.Query/EthCall"
+		q.Data = ethCallReq(fmt.Sprintf(`{"from":"%s","to":"%s","gas":"0xffffffffffffffff","data":"0x"}`, from, h.looper.Hex()), 0)
+	case "query-estimategas-unbounded-gas-loop":
+		q.Path = "/ethermint.evm.v1.Query/EstimateGas"
+		q.Data = ethCallReq(fmt.Sprintf(`{"from":"%s","to":"%s","gas":"0xffffffffffffffff"}`, from, h.looper.Hex()), math.MaxUint64)
 	default:
 		panic("unknown query class " + class)
 	}
